@@ -40,6 +40,27 @@ T = {
  "C15B": ("DIR", ["./mutants/B/"]),
  "C16A": ([("demo_test.go","common/bytes/zz_demo_test.go"),("demo_e2e_test.go","proc/zz_demo_test.go")], ["./common/bytes/","./proc/","-run","TestDemoWordRoundTrip|TestDemoStoreLoadWord"]),
  "C16B": ([("demo_test.go","proc/zz_demo_test.go")], ["./proc/","-run","TestDemoStoreLoadWord"]),
+ # round 2
+ "C01C": ([("demo_test.go","proc/zz_demo_test.go")], ["./proc/","-run","TestDemoA"]),
+ "C01D": ([("demo_test.go","proc/zz_demo_test.go")], ["./proc/","-run","TestDemoB"]),
+ "C03C": ([("demo_test.go","proc/zz_demo_test.go")], ["./proc/","-run","TestDemoC03A"]),
+ "C03D": ([("demo_test.go","proc/zz_demo_test.go")], ["./proc/","-run","TestDemoC03B"]),
+ "C04C": ([("demo_test.go","zz_demo_c04a/demo_test.go")], ["./zz_demo_c04a/","-run","TestDemoC04A"]),
+ "C04D": ([("demo_test.go","zz_demo_c04b/demo_test.go")], ["./zz_demo_c04b/","-run","TestDemoC04B"]),
+ "C05C": ([("demo_test.go","proc/zz_demo_test.go")], ["./proc/","-run","TestDemoC05A"]),
+ "C05D": ([("demo_test.go","proc/zz_demo_test.go")], ["./proc/","-run","TestDemoC05B"]),
+ "C06C": ([("demo_test.go","proc/mvp7-0/zz_demo_test.go")], ["./proc/mvp7-0/","-run","TestDemoC06A"]),
+ "C06D": ([("demo_test.go","proc/mvp8-0/zz_demo_test.go")], ["./proc/mvp8-0/","-run","TestDemoC06B"]),
+ "C07C": ([("demo_test.go","proc/mvp7-0/zz_demo_test.go")], ["./proc/mvp7-0/","-run","TestDemoC07A"]),
+ "C07D": ([("demo_test.go","proc/mvp6-2/zz_demo_test.go")], ["./proc/mvp6-2/","-run","TestDemoC07B"]),
+ "C08C": ([("demo_test.go","proc/mvp7-0/zz_demo_test.go")], ["./proc/mvp7-0/","-run","TestDemoC08A"]),
+ "C08D": ([("demo_test.go","proc/mvp6-1/zz_demo_test.go")], ["./proc/mvp6-1/","-run","TestDemoC08B"]),
+ "C09C": ([("demo_test.go","proc/mvp6-2/zz_demo_test.go")], ["./proc/mvp6-2/","-run","TestC09ARetWaitsForOlderBranch"]),
+ "C09D": ([("demo_test.go","proc/mvp6-0/zz_demo_test.go")], ["./proc/mvp6-0/","-run","TestC09BRetDrainWritesOlderResults"]),
+ "C10C": ([("demo_test.go","proc/mvp6-2/zz_demo_test.go")], ["./proc/mvp6-2/","-run","TestDemoC10A"]),
+ "C10D": ([("demo_test.go","proc/mvp6-0/zz_demo_test.go")], ["./proc/mvp6-0/","-run","TestDemoC10B"]),
+ "C12C": ([("demo_test.go","proc/mvp6-1/zz_demo_test.go")], ["./proc/mvp6-1/","-run","TestDemoC12A"]),
+ "C12D": ([("demo_test.go","proc/mvp2/zz_demo_test.go")], ["./proc/mvp2/","-run","TestDemoC12B"]),
 }
 def sh(args, cwd, timeout=3600):
     p = subprocess.run(args, cwd=cwd, env=ENV, capture_output=True, text=True, timeout=timeout)
